@@ -23,7 +23,8 @@ LEVEL_TEXT = ("For every McpPydanticBase subclass found by walking chuk_mcp.prot
               "members) and JSON-RPC envelopes of all four kinds with every id shape are validated under both backends in "
               "separate processes; acceptance, the class at every model-typed position, the type-tagged re-serialisation, "
               "message kind and type(id) must be identical, and each documented invariant must be enforced by both or neither."
-              " Numeric ranges of the priority members are pinned from the schema (0..1 inclusive) and probed on both sides under both backends.")
+              " Numeric ranges of the priority members are pinned from the schema (0..1 inclusive) and probed on both sides under both backends."
+              " The reverse-order workers also hold an application module whose generic aliases share names with model classes; extras named after the implementation's vocabulary.")
 LEVEL_NOTE = ("Trusted: MCP_FORCE_FALLBACK=1 selects the fallback (each worker reports PYDANTIC_AVAILABLE; the run is "
               "inconclusive if the two reports do not differ); the generator's notion of spec-valid (required present, "
               "Literals at their value, no explicit null for optional members). Transport parameter classes are config "
